@@ -157,10 +157,23 @@ def sami_class_case(ctx, report, folder):
     cp = ctx.index.get_function(SAMI, "SAMIParser._css_parse")
     for f in (ta, cp):
         report.covered(f)
-    lowers = any(isinstance(n, ast.Assign) and src(n.targets[0]) == "selector" and src(n.value).endswith(".lower()")
-                 for n in walk_no_nested(cp.node)) or "selectorText.lower()" in src(cp.node)
-    if not lowers:
-        raise AnalysisError("SAMIParser._css_parse: selector normalisation not recognised")
+    # the stylesheet side, folded: SAMIParser._css_parse on a sheet with mixed-case class and id selectors (cssutils replaced by
+    # the CSS-subset model of sa/core/samimodels.py)
+    from ..core.constfold import Folder, FoldRaise
+    from ..core.samimodels import SAMI_MODELS
+    from ..core.soupmodel import Soup
+    F2 = Folder(ctx.index)
+    F2.object_classes = "*"
+    F2.external_models = dict({"bs4.BeautifulSoup": Soup}, **SAMI_MODELS)
+    pcls = ctx.index.get_class(SAMI, "SAMIParser")
+    try:
+        me = F2.eval_in("pycaption.sami", ast.parse("SAMIParser()", mode="eval").body, {})
+        sheet = F2.call_function(cp, [".EmPh {font-style: italic;}\n#BiG {font-size: 8pt;}\nP {color: white;}"], {}, self_value=me)
+    except FoldRaise as e:
+        raise AnalysisError(f"SAMIParser._css_parse raises {e.exc_name} on a three-rule stylesheet")
+    keys = sorted(sheet) if isinstance(sheet, dict) else None
+    if keys is None:
+        raise AnalysisError("SAMIParser._css_parse: the folded result is not a dict of rules")
     rcls = ctx.index.get_class(SAMI, "SAMIReader")
     got = {}
     for label, attrs in (("class", {"class": ["EmPh"]}), ("id", {"id": "BiG"})):
@@ -169,8 +182,9 @@ def sami_class_case(ctx, report, folder):
         except AnalysisError as e:
             raise AnalysisError(f"SAMIReader._translate_attrs cannot be folded: {e}")
         got[label] = out.get("class") if isinstance(out, dict) else out
-    report.check(got == {"class": "emph", "id": "big"}, "R-TABLE-SIBLING", ta,
-                 "SAMI: a class / id reference is normalised like the stylesheet's selectors (lower case)",
-                 {"stylesheet_selectors": "lower-cased", "folded_lookups": got,
+    report.check(got["class"] in keys and got["id"] in keys, "R-TABLE-SIBLING", ta,
+                 "SAMI: a class / id reference is normalised like the stylesheet's selectors (the keys '.EmPh' / '#BiG' are stored "
+                 "under are the keys 'EmPh' / 'BiG' are looked up with)",
+                 {"stylesheet_keys": keys, "folded_lookups": got,
                   "why": "'.Emph {font-style: italic}' is stored as 'emph': looking up 'Emph' finds nothing and the italics are lost"},
                  "1")
